@@ -682,5 +682,8 @@ def replay(harness, w):
     if w.get('obligation') in ('exclusion', 'release_unlocked', 'deadlock'):
         err, trace = replay_real(w['kinds'], [tuple(a) for a in w['schedule']])
         return {'violates': err is not None, 'detail': err, 'trace': trace}
+    if w.get('obligation') == 'leak':
+        err, trace = probe_usable(w['kinds'], [tuple(a) for a in w['schedule']])
+        return {'violates': err is not None, 'detail': err, 'trace': trace}
     from checks import c20_filelock
     return c20_filelock.replay(w)
